@@ -123,7 +123,105 @@ func (p *Path) resolveBit(b Bit) Bit {
 			return bit0
 		}
 	}
+	// a derived atom ("len(x)+1") whose definition evaluates to a constant under the bindings
+	if strings.ContainsAny(b.A, "+-*") {
+		if def := ParseLin(b.A); def != nil && len(def.T) > 0 {
+			val := def.C
+			for a, c := range def.T {
+				av, ok := p.atomConst(a)
+				if !ok {
+					return b
+				}
+				val += c * av
+			}
+			if val >= 0 && b.I < 63 {
+				if uint64(val)&(1<<uint(b.I)) != 0 {
+					return bit1
+				}
+				return bit0
+			}
+		}
+	}
 	return b
+}
+
+// atomConst returns the value of an atom whose significant bits are all bound.
+func (p *Path) atomConst(a string) (int64, bool) {
+	ai := p.atomInfo(a)
+	if ai == nil {
+		return 0, false
+	}
+	if ai.Hi >= 0 && ai.Lo == ai.Hi {
+		return ai.Lo, true
+	}
+	m := p.Bind[a]
+	var v int64
+	for i := 0; i < ai.W; i++ {
+		bit, ok := m[i]
+		if !ok {
+			return 0, false
+		}
+		if bit {
+			v |= 1 << uint(i)
+		}
+	}
+	return v, ai.W > 0 || ai.Hi == 0
+}
+
+// ParseLin parses the canonical rendering of a linear form ("len(x)+7", "2*a-b+1"); nil on failure.
+func ParseLin(s string) *Lin {
+	out := &Lin{T: map[string]int64{}}
+	depth := 0
+	start := 0
+	sign := int64(1)
+	flush := func(end int, nextSign int64) bool {
+		tok := strings.TrimSpace(s[start:end])
+		if tok != "" {
+			coef := sign
+			if i := strings.Index(tok, "*"); i > 0 {
+				var k int64
+				if _, err := fmt.Sscanf(tok[:i], "%d", &k); err == nil {
+					coef *= k
+					tok = tok[i+1:]
+				}
+			}
+			var k int64
+			if n, err := fmt.Sscanf(tok, "%d", &k); err == nil && n == 1 && fmt.Sprint(k) == tok {
+				out.C += coef * k
+			} else {
+				out.T[tok] += coef
+			}
+		}
+		sign = nextSign
+		start = end + 1
+		return true
+	}
+	for i := 0; i < len(s); i++ {
+		switch s[i] {
+		case '(', '[':
+			depth++
+		case ')', ']':
+			depth--
+		case '+':
+			if depth == 0 && i > 0 {
+				flush(i, 1)
+			}
+		case '-':
+			if depth == 0 {
+				if i == start {
+					sign = -1
+					start = i + 1
+				} else {
+					flush(i, -1)
+				}
+			}
+		}
+	}
+	flush(len(s), 1)
+	if depth != 0 {
+		return nil
+	}
+	return out
 }
 
 func (p *Path) bindBit(b Bit, val bool) {
@@ -322,6 +420,10 @@ func (p *Path) assume(pr *Pred, key string, val bool) {
 	}
 	if pr.BoolA != nil {
 		p.bindBit(*pr.BoolA, truth)
+	}
+	if pr.EqLin != nil && truth {
+		p.addCons(pr.EqLin)
+		p.addCons(pr.EqLin.Scale(-1))
 	}
 }
 
